@@ -148,6 +148,11 @@ JoinerMode(P, st) ==
   ELSE IF P.opts.joiner = "lazy" THEN "before"
   ELSE "after"
 
+\* `futures_crate_path(p)`: the step's `join!` / `try_join!` is p's (event "fxjoin", logged by the re-export the harness passes as p);
+\* it is reached after the step's captures and before the step's futures are constructed (they are its arguments)
+FxMode(P, st) == IsAsync(P) /\ P.opts.path = "custom" /\ P.opts.joiner = "none" /\ Cardinality(Active(P, st)) > 1
+Constructed(s) == s.capq = <<>> /\ s.consq = <<>> /\ (FxMode(s.prog, s.k) => s.fx = "done")
+
 ---------------------------------------------------------------------------
 \* per-branch program counter: [i, ph]; i = 0 is the initial expression.
 \* ph: "i" init event pending, "o" operand event pending, "e" enter pending,
@@ -226,13 +231,13 @@ InitState(P, PL, G) ==
    val |-> [b \in BrSet(P) |-> NoV], names |-> [b \in BrSet(P) |-> NoV],
    ended |-> {}, garbage |-> {}, dropsFree |-> FALSE,
    res |-> NoRes, cands |-> {}, hparked |-> FALSE, polldone |-> FALSE,
-   hx |-> FALSE, jn |-> "todo", pp |-> "", released |-> {},
+   hx |-> FALSE, jn |-> "todo", fx |-> "todo", pp |-> "", released |-> {},
    inpoll |-> FALSE, polled |-> FALSE, sinceWake |-> FALSE, woken |-> FALSE, spur |-> FALSE,
    panicked |-> FALSE, pb |-> -1, zombie |-> FALSE, fresh |-> FALSE, started |-> {}, cpb |-> -1]
 
 StartStep(s, st) ==
   LET s1 == [s EXCEPT !.k = st, !.ph = "step", !.capq = Caps(s.prog, st), !.consq = Cons(s.prog, st),
-                      !.ended = {}, !.jn = "todo", !.started = {},
+                      !.ended = {}, !.jn = "todo", !.fx = "todo", !.started = {},
                       \* tasks spawned by this root poll start running only after it returns
                       !.fresh = IsTasks(s.prog) /\ Cardinality(Active(s.prog, st)) > 1,
                       !.arrived = [b \in BrSet(s.prog) |-> FALSE]]
@@ -268,7 +273,7 @@ AbortSync(s) ==
                 !.garbage = s.garbage \cup Objs(P, {s.val[b] : b \in BrSet(P) \ {fb}})]
 
 StepComplete(s) ==
-  /\ s.ph = "step" /\ s.capq = <<>> /\ s.consq = <<>>
+  /\ s.ph = "step" /\ Constructed(s)
   /\ s.ended = Active(s.prog, s.k)
   /\ (JoinerMode(s.prog, s.k) # "none" => s.jn = "done")
   /\ ~s.panicked
@@ -285,7 +290,7 @@ Barrier(s) ==
 RECURSIVE Settle(_)
 Settle(s) ==
   LET P == s.prog IN
-  IF s.ph = "step" /\ s.capq = <<>> /\ s.consq = <<>> /\ ~s.fresh /\ EndedNow(s) \ s.ended # {}
+  IF s.ph = "step" /\ Constructed(s) /\ ~s.fresh /\ EndedNow(s) \ s.ended # {}
   THEN Settle([s EXCEPT !.ended = s.ended \cup EndedNow(s)])
   ELSE IF StepComplete(s) /\ (IsAsync(P) => s.inpoll)
   THEN LET s1 == Barrier(s) IN
@@ -302,7 +307,7 @@ Settle(s) ==
 \* a pending injected panic on the caller's side blocks everything; one inside a branch thread only that branch
 CallerPanics(s) == s.pp # "" /\ s.pb = -1
 
-Running(s) == s.ph = "step" /\ s.capq = <<>> /\ s.consq = <<>> /\ ~CallerPanics(s)
+Running(s) == s.ph = "step" /\ Constructed(s) /\ ~CallerPanics(s)
               /\ (JoinerMode(s.prog, s.k) = "before" => s.jn = "done")
 
 \* `lazy_branches(false)` in a thread-spawning sync macro: the branch expression is evaluated on the calling thread,
@@ -323,7 +328,7 @@ MayRun(s, b) ==
         => \A c \in Active(P, s.k) : c < b => (c \in s.ended \/ AtJob(s, c))
   /\ \/ Running(s) /\ ~s.panicked /\ ~s.fresh /\ (IsAsync(P) /\ ~IsTasks(P) => s.inpoll)
         /\ (IsTasks(P) /\ Cardinality(Active(P, s.k)) < 2 => s.inpoll)
-     \/ s.zombie /\ s.capq = <<>> /\ s.consq = <<>>
+     \/ s.zombie /\ Constructed(s)
 
 BranchEvents(s) == UNION {BranchEvent(s, b) : b \in {c \in BrSet(s.prog) : MayRun(s, c)}}
 
@@ -350,6 +355,7 @@ StepEvents(s) ==
   ELSE IF s.capq # <<>> THEN {CapEvent(s)}
   ELSE IF JoinerMode(P, s.k) = "before" /\ s.jn = "todo"
        THEN {E("joiner", Cardinality(Active(P, s.k)), -1, NoV, <<>>)}
+  ELSE IF FxMode(P, s.k) /\ s.fx = "todo" THEN {E("fxjoin", Cardinality(Active(P, s.k)), -1, NoV, <<>>)}
   ELSE IF s.consq # <<>> THEN {E(Head(s.consq).ev, Head(s.consq).id, Head(s.consq).b, NoV, <<>>)}
   ELSE IF s.jn = "todo" /\ (\/ JoinerMode(P, s.k) = "during"
                             \/ JoinerMode(P, s.k) = "after" /\ s.ended = Active(P, s.k))
@@ -405,10 +411,10 @@ PollEvents(s) ==
   ELSE \* inside a poll: how can it end?
     (IF s.ph = "fin" /\ (s.dropsFree \/ s.garbage = {}) THEN {E("pollend", 1, -1, NoV, <<>>)} ELSE {})
     \cup
-    (IF s.ph = "step" /\ IsTry(P) /\ FailedEnded(s) # {} /\ s.capq = <<>> /\ s.consq = <<>>
+    (IF s.ph = "step" /\ IsTry(P) /\ FailedEnded(s) # {} /\ Constructed(s)
      THEN {E("pollend", 1, -1, NoV, <<>>)} ELSE {})
     \cup
-    (IF /\ s.ph = "step" /\ s.capq = <<>> /\ s.consq = <<>>
+    (IF /\ s.ph = "step" /\ Constructed(s)
         /\ (JoinerMode(P, s.k) = "before" => s.jn = "done")
         /\ s.ended # Active(P, s.k)
         /\ (IsTry(P) => FailedEnded(s) = {})
@@ -506,6 +512,7 @@ ApplyRaw(s, e) ==
     [] e.ev = "joiner" ->
          LET pk == PanicKeyFor(s, e) IN
          IF pk # "" THEN [s EXCEPT !.pp = pk] ELSE [s EXCEPT !.jn = "done"]
+    [] e.ev = "fxjoin" -> [s EXCEPT !.fx = "done"]
     [] e.ev = "hexpr" ->
          LET pk == PanicKeyFor(s, e) IN
          IF pk # "" THEN [s EXCEPT !.pp = pk] ELSE [s EXCEPT !.hx = TRUE]
@@ -533,7 +540,7 @@ ApplyRaw(s, e) ==
                         !.zombie = TRUE]
          ELSE [s EXCEPT !.panicked = TRUE, !.pp = "", !.dropsFree = TRUE,
                         \* threads / tasks of the step exist only if the step got that far
-                        !.zombie = IsSpawn(P) /\ s.ph = "step" /\ s.capq = <<>> /\ s.consq = <<>>
+                        !.zombie = IsSpawn(P) /\ s.ph = "step" /\ Constructed(s)
                                    /\ Cardinality(Active(P, s.k)) > 1
                                    /\ (s.started # {} \/ s.pp = "jn" \/ IsTasks(P))]
     [] e.ev = "arrive" /\ e.b = -1 -> [s EXCEPT !.hparked = TRUE]
